@@ -111,6 +111,30 @@ def worker(mode, items, timeout=600):
     return json.loads(p.stdout)
 
 
+def shrink_prefix(mode, doc, prefix, alone_obs):
+    """smallest session found that still makes [doc] come out differently: a single predecessor, else halves"""
+    def differs(pre):
+        r = worker(mode, pre + [doc])
+        if r.get("error") or not r["results"]:
+            return False
+        obs = r["results"][-1][1]
+        return any(alone_obs.get(k) != obs.get(k) for k in set(alone_obs) | set(obs) if k != "lowlevel_rewrite_terms_reset")
+
+    for x in dict.fromkeys(prefix):
+        if differs([x]):
+            return [x]
+    cur = list(prefix)
+    while len(cur) > 1:
+        h = len(cur) // 2
+        if differs(cur[h:]):
+            cur = cur[h:]
+        elif differs(cur[:h]):
+            cur = cur[:h]
+        else:
+            break
+    return cur
+
+
 def shared_mutables(a, b):
     """ids of mutable objects reachable from both a and b (fresh structures must share none)"""
     import enum
@@ -257,6 +281,7 @@ def run():
             perms.append(p + p[: len(p) // 3])  # some documents a second time in the same process
         together = list(ex.map(lambda p: worker(mode, p, timeout=1500), perms))
     base = {}
+    shrunk = []
     changed_globals = set()
     for it, r in zip(pool, alone):
         if r.get("error"):
@@ -289,7 +314,9 @@ def run():
             if diff:
                 only_low = set(diff) <= {"lowlevel_rewrite", "api_save", "built_save"}
                 vanish = obs.get("lowlevel_rewrite_terms_reset") == b.get("lowlevel_rewrite")
-                ck.fail("history-dependent-result", {"document": it, "position": idx, "session_prefix": p[:idx]},
+                prefix = shrink_prefix(mode, it, p[:idx], b) if len(shrunk) < 3 else p[:idx]
+                shrunk.append(it)
+                ck.fail("history-dependent-result", {"document": it, "position": idx, "session_prefix": prefix},
                         {k: obs.get(k) for k in diff}, {k: b.get(k) for k in diff},
                         only_lowlevel_bytes=only_low, vanishes_with_terms_reset=vanish and only_low, level="document")
     # twin sessions: the same document after an identifier-preserving, payload-changing twin of itself
